@@ -54,11 +54,19 @@ VARIABLES i,
           pendL, applyT,  \* a reloaded list waiting for the next housekeeping pass, and when that pass is (-1: none)
           refT,      \* time of the last refused reload (-1: none)
           lastApply, \* when the last list came into force
-          out        \* out[l]: the data sequence numbers that left from l's current socket and have not been retired by
+          out,       \* out[l]: the data sequence numbers that left from l's current socket and have not been retired by
                      \*         what the receiver has sent since (C02, as far as the outside can tell)
+          rex,       \* sequence numbers the client has offered more than once
+          nk, nkx, amb, ambN,  \* nk[l]: loss reports certainly charged to l's current registration (C05); nkx[l]: further ones that
+                     \*   may have been; amb[l]: numbers in out[l] that such a report may have retired; ambN: such reports
+          subs,      \* the reading control clients: <<[sid, topic, open, last]>> (last: time / counter of the last line)
+          statT,     \* when the first reading client last got a stats line
+          pgev, ppgev, ppulls, pstT, ppstT,  \* stall counters of the last two stats samples per link (-1: not comparable)
+          gOffT, gSel   \* since when the stall guard has been switched off (-1: it is on); a datagram was routed since
 
 vars == <<i, n, timeout, profile, est, known, outst, hi, recent, routed, dups, port, conn, heard, kaT, downLo,
-          everUp, repaired, mode, modeT, ackT, kw, kwT, reg1L, reg1T, ansT, seen2, amn, failing, listed, pendL, applyT, refT, lastApply, out>>
+          everUp, repaired, mode, modeT, ackT, kw, kwT, reg1L, reg1T, ansT, seen2, amn, failing, listed, pendL, applyT, refT, lastApply, out,
+          rex, nk, nkx, amb, ambN, subs, statT, pgev, ppgev, ppulls, pstT, ppstT, gOffT, gSel>>
 
 Links == 1..MaxL
 Handshake == {"reg1", "reg2", "reg3", "reg_err", "reg_ngp"}
@@ -94,6 +102,12 @@ Fresh(r) ==
     /\ failing' = [l \in Links |-> FALSE]
     /\ listed' = (IF "listed" \in DOMAIN r THEN {r.listed[j] : j \in 1..Len(r.listed)} ELSE 1..r.n) /\ pendL' = {} /\ applyT' = -1 /\ refT' = -1 /\ lastApply' = 0
     /\ out' = [l \in Links |-> {}]
+    /\ rex' = {} /\ nk' = [l \in Links |-> 0] /\ nkx' = [l \in Links |-> 0] /\ amb' = [l \in Links |-> {}] /\ ambN' = 0
+    /\ subs' = (IF "subs" \in DOMAIN r
+                THEN [j \in 1..Len(r.subs) |-> [sid |-> r.subs[j].sid, topic |-> r.subs[j].topic, open |-> TRUE, last |-> -1]]
+                ELSE <<>>)
+    /\ statT' = 0 /\ pgev' = [l \in Links |-> -1] /\ ppgev' = [l \in Links |-> -1] /\ ppulls' = [l \in Links |-> -1]
+    /\ pstT' = -1 /\ ppstT' = -1 /\ gOffT' = -1 /\ gSel' = FALSE
 
 (* ---------------- the uplink direction (C01) ---------------- *)
 (* fold over the frames of one step, in the order the receiver socket delivered them *)
@@ -241,17 +255,141 @@ FirstOther(o, s, skip) ==
     IN IF H = {} THEN 0 ELSE CHOOSE l \in H : \A m \in H : l <= m
 AckOne(o, l, s) == IF s \in o[l] THEN [o EXCEPT ![l] = @ \ {s}]
                    ELSE LET h == FirstOther(o, s, l) IN IF h = 0 THEN o ELSE [o EXCEPT ![h] = @ \ {s}]
-AcctRx(o, x) ==
-    IF "nums" \notin DOMAIN x THEN o
-    ELSE IF x.cls = "srtla_ack" THEN FoldLeft(LAMBDA oo, s : AckOne(oo, x.l, s), o, x.nums)
-    ELSE IF x.cls = "srt_ack" /\ x.nums # <<>> THEN [l \in Links |-> {s \in o[l] : s > x.nums[1]}]
-    ELSE IF x.cls = "reg3" THEN [o EXCEPT ![x.l] = {}]        \* registration clears the link's accounting
-    ELSE o
+(* a loss report: each number is charged to the one uplink that holds it.  The harness reports numbers the receiver
+   got exactly once, so normally there is one holder or -- after an ACK or a reset -- none; when the client has
+   offered the number again (a retransmission, queued or sent on whatever uplink while the report was on its way)
+   the outside cannot tell which uplink the sender's tracker names: at most one of the holders is charged (x: possible extra charges, m: numbers that may be
+   gone, c: how many such reports) *)
+NakOne(a, s) ==
+    LET H == {l \in Links : s \in a.o[l]} IN
+    IF s < 0 \/ H = {} THEN a
+    ELSE IF Cardinality(H) = 1 /\ s \notin rex
+         THEN LET h == CHOOSE l \in H : TRUE IN
+              IF s \in a.m[h] THEN [a EXCEPT !.x = [@ EXCEPT ![h] = @ + 1], !.c = @ + 1]   \* (it may be gone already)
+              ELSE [a EXCEPT !.o = [@ EXCEPT ![h] = @ \ {s}], !.k = [@ EXCEPT ![h] = @ + 1]]
+         ELSE [a EXCEPT !.x = [l \in Links |-> IF l \in H THEN a.x[l] + 1 ELSE a.x[l]],
+                        !.m = [l \in Links |-> IF l \in H THEN a.m[l] \cup {s} ELSE a.m[l]],
+                        !.c = @ + 1]
+AcctRx(r, a, x) ==
+    IF "nums" \notin DOMAIN x THEN a
+    \* (an answer addressed to an uplink that a reload has removed finds no socket: the sender never sees it)
+    ELSE IF x.l \notin (IF Applying(r) THEN pendL ELSE listed) THEN a
+    ELSE IF x.cls = "srtla_ack" THEN [a EXCEPT !.o = FoldLeft(LAMBDA oo, s : AckOne(oo, x.l, s), a.o, x.nums)]
+    ELSE IF x.cls = "srt_ack" /\ x.nums # <<>> THEN [a EXCEPT !.o = [l \in Links |-> {s \in a.o[l] : s > x.nums[1]}]]
+    ELSE IF x.cls = "reg3"        \* registration clears the link's accounting
+         THEN [a EXCEPT !.o = [@ EXCEPT ![x.l] = {}], !.k = [@ EXCEPT ![x.l] = 0], !.x = [@ EXCEPT ![x.l] = 0]]
+    ELSE IF x.cls = "srt_nak" THEN FoldLeft(LAMBDA aa, s : NakOne(aa, s), a, x.nums)
+    ELSE a
 Acct(r) ==
     LET w  == FoldLeft(LAMBDA acc, f : AcctWire(r, acc, f), [o |-> out, p |-> port, ok |-> TRUE], r.wire)
-        o2 == FoldLeft(LAMBDA o, x : AcctRx(o, x), w.o, r.rx)
+        a2 == FoldLeft(LAMBDA a, x : AcctRx(r, a, x), [o |-> w.o, k |-> nk, x |-> nkx, m |-> amb, c |-> ambN], r.rx)
+        Gone1(l) == l \in Removed(r) \/ (r.ev = "SendFail" /\ r.done /\ r.l = l)
     IN /\ "C02" \in Check => w.ok
-       /\ out' = [l \in Links |-> IF l \in Removed(r) \/ (r.ev = "SendFail" /\ r.done /\ r.l = l) THEN {} ELSE o2[l]]
+       /\ out' = [l \in Links |-> IF Gone1(l) THEN {} ELSE a2.o[l]]
+       /\ nk'  = [l \in Links |-> IF Gone1(l) THEN 0 ELSE a2.k[l]]
+       /\ nkx' = [l \in Links |-> IF Gone1(l) THEN 0 ELSE a2.x[l]]
+       /\ amb' = [l \in Links |-> a2.m[l] \cap out'[l]]
+       /\ ambN' = a2.c
+       /\ rex' = IF r.ev = "Client" /\ "kind" \in DOMAIN r /\ r.kind = "rexmit" THEN rex \cup {r.seq} ELSE rex
+
+(* ---------------- telemetry: what control clients that read are pushed ---------------- *)
+Pubs(r) == IF "pub" \in DOMAIN r THEN r.pub ELSE <<>>
+Subs1(r) == IF r.ev = "Sub" THEN Append(subs, [sid |-> r.sid, topic |-> r.topic, open |-> TRUE, last |-> -1])
+            ELSE IF r.ev = "Unsub" THEN [subs EXCEPT ![r.slot].open = FALSE]
+            ELSE subs
+MethodOf(topic) == IF topic = "stats" THEN "stats.update" ELSE IF topic = "priority.window" THEN "priority.window.update" ELSE "?"
+PubStep(acc, p) ==
+    IF p.slot > Len(acc.s) THEN [acc EXCEPT !.ok = FALSE]
+    ELSE LET e   == acc.s[p.slot]
+             key == IF "k" \in DOMAIN p THEN p.k ELSE p.t
+         IN [acc EXCEPT !.s = [@ EXCEPT ![p.slot].last = key],
+                        !.ok = @ /\ p.psid = e.sid                  \* tagged with its own subscription id
+                                 /\ p.method = MethodOf(e.topic)    \* only events of its topic
+                                 /\ p.open                          \* nothing once its unsubscribe has completed
+                                 \* publication order, each at most once (a side event carries its publication
+                                 \* counter; two stats lines can fall into the same millisecond when a pass was late)
+                                 /\ (IF "k" \in DOMAIN p THEN key > e.last ELSE key >= e.last)]
+Hub(r) ==
+    LET w == FoldLeft(PubStep, [s |-> Subs1(r), ok |-> TRUE], Pubs(r))
+        sT == {Pubs(r)[j].t : j \in {q \in 1..Len(Pubs(r)) : Pubs(r)[q].slot = 1 /\ Pubs(r)[q].method = "stats.update"}}
+    IN /\ subs' = w.s
+       /\ statT' = IF sT = {} THEN statT ELSE CHOOSE t \in sT : \A u \in sT : u <= t
+       /\ "C20" \in Check =>
+            /\ w.ok
+            \* every subscription gets an id of its own
+            /\ r.ev = "Sub" => \A j \in 1..Len(subs) : subs[j].sid # r.sid
+            /\ r.ev = "Unsub" => r.was
+            \* nobody gets a stats line more often than the client that has been subscribed all along
+            /\ \A a \in 1..Len(Pubs(r)) : LET p == Pubs(r)[a] IN
+                  (p.method = "stats.update" /\ Len(subs) >= 1 /\ subs[1].topic = "stats") =>
+                     Cardinality({b \in 1..Len(Pubs(r)) : Pubs(r)[b].slot = p.slot /\ Pubs(r)[b].t = p.t /\ Pubs(r)[b].method = p.method})
+                       <= Cardinality({b \in 1..Len(Pubs(r)) : Pubs(r)[b].slot = 1 /\ Pubs(r)[b].t = p.t /\ Pubs(r)[b].method = p.method})
+            \* one publication is the same event for everybody
+            /\ \A a, b \in 1..Len(Pubs(r)) : (Pubs(r)[a].method = Pubs(r)[b].method /\ Pubs(r)[a].t = Pubs(r)[b].t)
+                                                  => Pubs(r)[a].dg = Pubs(r)[b].dg
+            \* the loop's own publisher keeps its cadence whatever the other clients do
+            /\ (Len(subs) >= 1 /\ subs[1].topic = "stats") => r.t - statT' <= 2 * Period + r.d
+
+(* ---------------- what the stats lines say, against what the outside has seen ---------------- *)
+Samples(r) == SelectSeq(Pubs(r), LAMBDA p : "st" \in DOMAIN p)
+WireSeqs(r, l) == {r.wire[j].seq : j \in {q \in 1..Len(r.wire) : r.wire[q].l = l /\ r.wire[q].cls = "data" /\ r.wire[q].seq >= 0}}
+Steady(r, l) == /\ port[l] # 0 /\ ~Torn(r, l) /\ ~failing[l] /\ ~(r.ev = "SendFail" /\ r.l = l) /\ conn[l] # -1
+SumOver(S, f(_)) == FoldLeft(LAMBDA a, j : a + f(j), 0, SetToSeq(S))
+SampleOK(r, p) ==
+    LET L == p.st.links IN
+    /\ \A j \in 1..Len(L) : LET x == L[j]   l == L[j].l IN
+        \* C02: a stats line is published before the answers of this step are processed, after some or all of the
+        \* step's frames have left
+        /\ ("C02" \in Check /\ Steady(r, l) /\ x.connected) =>
+               /\ Cardinality(out[l] \ amb[l]) <= x.in_flight
+               /\ x.in_flight <= Cardinality(out[l] \cup WireSeqs(r, l))
+        \* C05: each reported number the link held was counted once, against it and nobody else
+        /\ ("C05" \in Check /\ Steady(r, l) /\ x.connected) => (nk[l] <= x.nak /\ x.nak <= nk[l] + nkx[l])
+        \* C07: a link calls itself connected only once REG3 has reached its current socket
+        /\ ("C07" \in Check /\ ~Torn(r, l) /\ port[l] # 0) => (x.connected => conn[l] # -1)
+        \* C08: ... and timed out only after the configured silence (or a refused send)
+        /\ ("C08" \in Check /\ known /\ Steady(r, l) /\ heard[l] # -1) => (x.timed_out => p.t - heard[l] >= timeout)
+        \* C12: with the guard switched off (and a routing decision made since) no link is latched, and the
+        \* engagement counters stand still
+        /\ ("C12" \in Check /\ gOffT # -1) =>
+               /\ gSel => ~x.gated
+               /\ (pstT > gOffT /\ pgev[l] # -1) => (x.gev = pgev[l] /\ x.pulls = ppulls[l])
+        \* C13: a latch holds for at least twice a staleness window of at least a second: no two engagements within
+        \* two consecutive sampling periods (same registration, guard on throughout)
+        /\ ("C13" \in Check /\ ppgev[l] # -1 /\ p.t - ppstT <= 2 * Period) => x.gev - ppgev[l] <= 1
+    \* C05: a report whose number two uplinks held was charged to at most one of them
+    /\ ("C05" \in Check /\ \A j \in 1..Len(L) : Steady(r, L[j].l) /\ L[j].connected) =>
+          SumOver(1..Len(L), LAMBDA j : L[j].nak - nk[L[j].l]) <= ambN
+    \* the snapshot is consistent in itself (not part of a listed property: model drift only)
+    /\ "TEL" \in Check =>
+          LET act == {j \in 1..Len(L) : L[j].connected /\ ~L[j].timed_out} IN
+          /\ p.st.total = Len(L) /\ p.st.active = Cardinality(act)
+          /\ p.st.tw = SumOver(act, LAMBDA j : L[j].window) /\ p.st.tif = SumOver(act, LAMBDA j : L[j].in_flight)
+          /\ \A j \in 1..Len(L) : L[j].finite /\ L[j].window >= 1000 /\ L[j].window <= 60000 /\ L[j].in_flight >= 0
+          /\ p.st.mode = mode
+Stats(r) ==
+    LET S == Samples(r)
+        last == IF S = <<>> THEN [t |-> -1] ELSE S[Len(S)]
+        Ent(p, l) == LET J == {j \in 1..Len(p.st.links) : p.st.links[j].l = l} IN
+                     IF J = {} THEN [connected |-> FALSE, gev |-> -1, pulls |-> -1] ELSE p.st.links[CHOOSE j \in J : TRUE]
+        Broken(l) == (l <= n /\ Torn(r, l)) \/ l \in Removed(r) \/ (r.ev = "SetCfg" /\ "guard" \in DOMAIN r)
+    IN /\ \A j \in 1..Len(S) : SampleOK(r, S[j])
+       /\ pgev' = [l \in Links |-> IF Broken(l) THEN -1
+                                     ELSE IF S = <<>> THEN pgev[l]
+                                     ELSE IF Ent(last, l).connected THEN Ent(last, l).gev ELSE -1]
+       /\ ppulls' = [l \in Links |-> IF Broken(l) THEN -1
+                                       ELSE IF S = <<>> THEN ppulls[l]
+                                       ELSE IF Ent(last, l).connected THEN Ent(last, l).pulls ELSE -1]
+       /\ ppgev' = [l \in Links |-> IF Broken(l) THEN -1
+                                      ELSE IF S = <<>> THEN ppgev[l]
+                                      ELSE IF ~Ent(last, l).connected THEN -1
+                                      ELSE IF Len(S) >= 2 THEN (IF Ent(S[Len(S) - 1], l).connected THEN Ent(S[Len(S) - 1], l).gev ELSE -1)
+                                      ELSE pgev[l]]
+       /\ pstT' = IF S = <<>> THEN pstT ELSE last.t
+       /\ ppstT' = IF S = <<>> THEN ppstT ELSE IF Len(S) >= 2 THEN S[Len(S) - 1].t ELSE pstT
+       /\ gOffT' = IF r.ev = "SetCfg" /\ "guard" \in DOMAIN r THEN (IF r.guard THEN -1 ELSE r.t) ELSE gOffT
+       /\ gSel' = IF r.ev = "SetCfg" /\ "guard" \in DOMAIN r THEN FALSE
+                   ELSE (gSel \/ (r.ev = "Client" /\ r.sent /\ est))
 
 (* ---- C07 on the wire ---- *)
 Reg1s(r)   == SelectSeq(r.wire, LAMBDA f : f.cls = "reg1")
@@ -267,7 +405,7 @@ HandshakeChecks(r) ==
                /\ f.idlen = 256
                /\ (reg1L # 0 /\ f.l # reg1L /\ ansT = -1 /\ ~Torn(r, reg1L)) => r.t - reg1T >= 4000
         \* the id the receiver answered with is adopted and broadcast on every uplink by the next housekeeping pass
-        /\ (ansT # -1 /\ r.t - r.d >= ansT + Period) => (1..n) \subseteq (seen2 \cup GrpReg2(r))
+        /\ (ansT # -1 /\ r.t - r.d >= ansT + Period /\ lastApply < ansT /\ ~Applying(r)) => (listed \cap (1..n)) \subseteq (seen2 \cup GrpReg2(r))
 HandshakeNext(r) ==
     LET f1 == Reg1s(r) IN
     /\ reg1L' = IF f1 # <<>> THEN f1[Len(f1)].l ELSE reg1L
@@ -322,7 +460,7 @@ LinksOK(r) ==
     /\ downLo' = Gone([l \in Links |-> IF l <= n /\ Torn(r, l) THEN r.t - r.d ELSE downLo[l]], -1, r)
     /\ everUp' = Gone([l \in Links |-> IF l <= n THEN (everUp[l] \/ Conn1(r, l) # -1) ELSE everUp[l]], FALSE, r)
     /\ ReloadChecks(r) /\ ReloadNext(r)
-    /\ Acct(r)
+    /\ Acct(r) /\ Hub(r) /\ Stats(r)
     /\ est' = (est \/ \E j \in 1..Len(r.rx) : r.rx[j].cls = "reg3")
 
 TraceInit ==
@@ -336,6 +474,9 @@ TraceInit ==
     /\ failing = [l \in Links |-> FALSE]
     /\ listed = {} /\ pendL = {} /\ applyT = -1 /\ refT = -1 /\ lastApply = 0
     /\ out = [l \in Links |-> {}]
+    /\ rex = {} /\ nk = [l \in Links |-> 0] /\ nkx = [l \in Links |-> 0] /\ amb = [l \in Links |-> {}] /\ ambN = 0 /\ subs = <<>> /\ statT = 0
+    /\ pgev = [l \in Links |-> -1] /\ ppgev = [l \in Links |-> -1] /\ ppulls = [l \in Links |-> -1]
+    /\ pstT = -1 /\ ppstT = -1 /\ gOffT = -1 /\ gSel = FALSE
 
 TraceNext ==
     /\ i <= Len(Rec)
